@@ -343,26 +343,39 @@ def memCalls (s : Shard) (q : Query) (L : List AggType) (md : MemDB) (fam : Nat)
     else []
   | _, _ => []
 
-/-- the calls of one file block (`readSeriesData`). -/
-def fileCalls (q : Query) (L : List AggType) (blk : Block) (fam : Nat) (group : List Nat) : List Arrays :=
-  match familyTarget q fam with
-  | some (tLo, tHi) =>
-    if overlap blk.lo blk.hi tLo tHi then
-      group.flatMap (fun ser =>
-        match Map.lookup blk.pages (ser, q.field) with
-        | none => []
-        | some cells =>
-          [dsCall L (fun slot => if slot < blk.lo ∨ slot > blk.hi then none else cellAt cells (slot - blk.lo))
-            blk.lo blk.hi tLo tHi (fam * q.spf) q.qs q.ratio])
-    else []
-  | none => []
-
 /-- the parts of a leaf query that decide which sources answer: all selected fields and all
 series that satisfy the tag condition (`SeriesIDsAfterFiltering`). -/
 structure Scope where
   fields : List Nat
   series : List Nat
   deriving Repr
+
+/-- the selected field with the smallest field id (= query field index 0; ids are assigned in
+the order in which fields are first written). -/
+def firstQueryField (s : Shard) (sc : Scope) : Option Nat :=
+  ((s.fieldTypes.map Prod.fst).filter (fun f => sc.fields.contains f)).head?
+
+/-- which field of the block feeds query field `q.field` (`metricReader.readSeriesData`): a file
+with several fields maps by field id; a file with exactly ONE field is down-sampled into query
+field index 0, whichever field it holds. -/
+def blockSourceField (s : Shard) (q : Query) (sc : Scope) (blk : Block) : Option Nat :=
+  match blk.fields with
+  | [f] => if firstQueryField s sc = some q.field then some f else none
+  | fs => if fs.contains q.field then some q.field else none
+
+/-- the calls of one file block (`readSeriesData`). -/
+def fileCalls (s : Shard) (q : Query) (sc : Scope) (L : List AggType) (blk : Block) (fam : Nat) (group : List Nat) : List Arrays :=
+  match familyTarget q fam, blockSourceField s q sc blk with
+  | some (tLo, tHi), some src =>
+    if overlap blk.lo blk.hi tLo tHi then
+      group.flatMap (fun ser =>
+        match Map.lookup blk.pages (ser, src) with
+        | none => []
+        | some cells =>
+          [dsCall L (fun slot => if slot < blk.lo ∨ slot > blk.hi then none else cellAt cells (slot - blk.lo))
+            blk.lo blk.hi tLo tHi (fam * q.spf) q.qs q.ratio])
+    else []
+  | _, _ => []
 
 /-- does a block hold one of the fields and one of the series (`metricsDataFilter.Filter`) -/
 def blockMatches (sc : Scope) (blk : Block) : Bool :=
@@ -403,7 +416,7 @@ def familyCalls (s : Shard) (q : Query) (sc : Scope) (L : List AggType) (fam : N
     else
       let matched := readers.filter (blockMatches sc)
       if matched.isEmpty then []
-      else mem ++ matched.flatMap (fun blk => fileCalls q L blk fam group)
+      else mem ++ matched.flatMap (fun blk => fileCalls s q sc L blk fam group)
 
 /-- leaf result arrays of one group: all calls of all families (ascending), reduced. -/
 def leafGroup (s : Shard) (q : Query) (sc : Scope) (L : List AggType) (fams group : List Nat) : Arrays :=
